@@ -11,7 +11,8 @@
     the drain of callback [j+1]).  [In (a, k, v) (applied (rets b))]: a [read] of this kind
     returned [Some v], taken from the slot holding publication [k], during callback [a]. *)
 From Coq Require Import ZArith List Arith Sorted.
-From KV Require Import C07.Model C07.ProofsBuf C07.ProofsSys C07.ProofsThm C07.ProofsFinal.
+From KV Require Import Base.Num C06.Model C03.Model.
+From KV Require Import C07.Model C07.ProofsBuf C07.ProofsSys C07.ProofsThm C07.ProofsFinal C07.Multi C07.ProofsMulti.
 Import ListNotations.
 
 (** The writer's input slot, the back slot and the reader's output slot are always three
@@ -138,3 +139,127 @@ Theorem stamps_meaning : forall K p sched c k v st dn,
   let s := run K sched (init p) in
   pub_at (bufs s c) k = Some (v, st, dn) -> dn <= st <= dn + 1 /\ st <= cs s /\ dn <= cd s.
 Proof. exact f_stamps. Qed.
+
+(** * The multi-kind layer ([Multi.v])
+
+    Reading guide.  A resource has one triple-buffer slot per command kind, a state [St] and an
+    effect [apply k v] of the command [v] of kind [k] on the state.  [m_exec apply order h
+    (m_init s0)] is the resource after the history [h] (a list of [Issue k v]: the handle
+    method of kind [k] is called with [v]; and [Callback]: one audio callback, whose
+    [read_commands] reads the reader of every kind of [order] once, independently, in this
+    order, and applies what it finds), whole calls, from the state [s0] with empty slots.
+    [closed_intervals h]: the commands issued before callback 1, between callbacks 1 and 2, ...;
+    [open_interval h]: those issued after the last callback.  [last_of k iv]: the value of the
+    last command of kind [k] in the interval [iv].  [m_log]: every application (callback number,
+    kind, value), newest first.  [slot_pending b]: what the next [read] of the slot returns.
+    All statements hold for every history, every set of kinds, every effect function. *)
+
+(** The state after any history is obtained by folding, over the completed intervals, the
+    composition IN THE CODE'S ORDER of the per-kind effects of the LAST command of each kind of
+    the interval: nothing else ever touches the state, in particular nothing issued in an
+    earlier interval and nothing that was superseded. *)
+Theorem multi_state_is_composition : forall (St : Type) (apply : nat -> val -> St -> St) order s0 h, NoDup order ->
+  m_state (m_exec apply order h (m_init s0)) = spec_state apply order h s0.
+Proof. exact p_multi_state. Qed.
+
+(** The applications, in order, are exactly: for callback 1, 2, ... and for each kind in the
+    code's order, the last command of that kind issued in the interval that the callback ends,
+    if there is one. *)
+Theorem multi_applied_exactly : forall (St : Type) (apply : nat -> val -> St -> St) order s0 h, NoDup order ->
+  rev (m_log (m_exec apply order h (m_init s0))) = spec_log order h /\
+  m_ncb (m_exec apply order h (m_init s0)) = length (closed_intervals h).
+Proof. exact p_multi_log. Qed.
+
+(** None late, none lost: [v] of kind [k] is applied in callback [a] if and only if it is the last
+    command of kind [k] issued in the interval right before callback [a] (so a command issued
+    between callbacks [j] and [j+1] is applied in callback [j+1] or never, never in [j+2] or later;
+    and the last one of its kind IS applied in [j+1], including those issued before callback 1). *)
+Theorem multi_applied_iff_last_of_interval : forall (St : Type) (apply : nat -> val -> St -> St) order s0 h a k v, NoDup order ->
+  (In (a, k, v) (m_log (m_exec apply order h (m_init s0))) <->
+   exists iv, 1 <= a /\ nth_error (closed_intervals h) (a - 1) = Some iv /\ In k order /\ last_of k iv = Some v).
+Proof. exact p_multi_applied_iff. Qed.
+
+(** None twice: a callback applies at most one command of each kind. *)
+Theorem multi_applied_once : forall (St : Type) (apply : nat -> val -> St -> St) order s0 h, NoDup order ->
+  NoDup (map fst (m_log (m_exec apply order h (m_init s0)))).
+Proof. exact p_multi_once. Qed.
+
+(** At any time the reader of every kind holds exactly the last command of its kind issued since
+    the last callback; right after a callback every reader is empty: nothing issued before a
+    callback survives it. *)
+Theorem multi_readers_drained : forall (St : Type) (apply : nat -> val -> St -> St) order s0 h k, NoDup order -> In k order ->
+  slot_pending (m_slots (m_exec apply order h (m_init s0)) k) = last_of k (open_interval h) /\
+  slot_pending (m_slots (m_exec apply order (h ++ [Callback]) (m_init s0)) k) = None.
+Proof. exact p_multi_readers. Qed.
+
+(** Kinds do not interfere: what is applied for kind [k], and when, and what its reader holds, is
+    what a resource with the single kind [k] does on the history from which the commands of all
+    other kinds are erased (whatever the states and effects). *)
+Theorem multi_kind_behaves_as_if_alone : forall (St : Type) (apply : nat -> val -> St -> St) order s0 s0' h k, NoDup order -> In k order ->
+  filter (of_kind k) (rev (m_log (m_exec apply order h (m_init s0)))) =
+    rev (m_log (m_exec apply [k] (proj_kind k h) (m_init s0'))) /\
+  slot_pending (m_slots (m_exec apply order h (m_init s0)) k) =
+    slot_pending (m_slots (m_exec apply [k] (proj_kind k h) (m_init s0')) k).
+Proof. exact p_multi_alone. Qed.
+
+(** Callbacks that follow a callback with no command in between change neither the state nor the
+    log, and find every reader empty. *)
+Theorem multi_quiet_callbacks_change_nothing : forall (St : Type) (apply : nat -> val -> St -> St) order s0 h n, NoDup order ->
+  let r1 := m_exec apply order (h ++ [Callback]) (m_init s0) in
+  let rn := m_exec apply order (h ++ Callback :: repeat Callback n) (m_init s0) in
+  m_state rn = m_state r1 /\ m_log rn = m_log r1 /\
+  forall k, In k order -> slot_pending (m_slots rn k) = None.
+Proof. exact p_multi_quiet. Qed.
+
+(** The playback-state kinds of a sound (0 pause, 1 resume / resume_at, 2 stop: their order in
+    [read_commands]) on C03's [PlaybackStateManager], for every content of one interval, i.e. each
+    of the 2^3 subsets of kinds in any order and multiplicity: a stopped sound ignores them all;
+    otherwise stop wins, else resume (Resuming, or WaitingToResume with the start time and tween
+    of the LAST resume), else pause, else the state is unchanged. *)
+Theorem playback_commands_table : forall (T : Type) (NT : Num T) (V : Type) (silence identity : V)
+    (tw_of : val -> tween T) (st_of : val -> stime T) (m : psm T V) iv,
+  let after := interval_effect (pb_apply V silence identity tw_of st_of) [0; 1; 2] iv m in
+  (is_stopped (ps m) = true -> after = m) /\
+  (is_stopped (ps m) = false ->
+   ps after =
+   match last_of 2 iv with
+   | Some _ => Stopping
+   | None =>
+       match last_of 1 iv with
+       | Some v => match st_of v with Immediate => Resuming | st => WaitingToResume st (tw_of v) end
+       | None => match last_of 0 iv with Some _ => Pausing | None => ps m end
+       end
+   end).
+Proof. exact p_pb_table. Qed.
+
+(** ** The readings that are not the code violate the above (witnesses replayed by the harness)
+
+    [elseif_run]: a static sound whose [read_commands] reads stop / resume / pause as a chain
+    [if .. else if .. else if ..]: a command is applied a callback late, a reader is not empty after
+    a callback, the state differs from the composition, and what happens to kind pause depends on
+    the commands of kind resume. *)
+Theorem else_if_chain_applies_late_refuted : exists h a k v,
+  In (a, k, v) (m_log (elseif_run h)) /\
+  ~ (exists iv, 1 <= a /\ nth_error (closed_intervals h) (a - 1) = Some iv /\ In k static_order /\ last_of k iv = Some v).
+Proof. exact f_elseif_late. Qed.
+Theorem else_if_chain_reader_not_drained_refuted : exists h k, In k static_order /\
+  slot_pending (m_slots (elseif_run (h ++ [Callback])) k) <> None.
+Proof. exact f_elseif_reader_not_empty. Qed.
+Theorem else_if_chain_state_refuted : exists h,
+  state_code (ps (sn_psm (m_state (elseif_run h)))) <> state_code (ps (sn_psm (spec_state snd_apply static_order h (snd_init 0)))).
+Proof. exact f_elseif_state. Qed.
+Theorem else_if_chain_kinds_interfere_refuted : exists h k,
+  filter (of_kind k) (rev (m_log (elseif_run h))) <>
+  rev (m_log (m_exec snd_apply [k] (proj_kind k h) (m_init (snd_init 0)))).
+Proof. exact f_elseif_interferes. Qed.
+
+(** [ts_guarded_p]: a paused sub-track that drains the readers of its sound only while the track
+    is advancing: the last command of its kind of an interval is never applied in the callback
+    that ends the interval, and the reader is not empty after a callback. *)
+Theorem guarded_nested_drain_loses_commands_refuted : exists h j iv k v,
+  nth_error (closed_intervals h) j = Some iv /\ In k ts_order /\ last_of k iv = Some v /\
+  ~ In (S j, k, v) (m_log (ts_guarded_p h)).
+Proof. exact f_guarded_lost. Qed.
+Theorem guarded_nested_drain_reader_not_drained_refuted : exists h k, In k ts_order /\
+  slot_pending (m_slots (ts_guarded_p (h ++ [Callback])) k) <> None.
+Proof. exact f_guarded_reader_not_empty. Qed.
